@@ -198,6 +198,7 @@ func buildFamily(schema *ast.Schema, op *opgen.Op) *family {
 		valid("reqvar-8", Tv, op.OpName, copyVars(vars, map[string]any{"zzReq": 8}))
 		invalid("missing-required-variable", "varcoerce", Tv, op.OpName, copyVars(vars, nil))
 		invalid("null-required-variable", "varcoerce", Tv, op.OpName, copyVars(vars, map[string]any{"zzReq": nil}))
+		invalid("required-variable-no-variables-member", "varcoerce", Tv, op.OpName, nil) // the request has no variables at all
 		invalid("wrong-variable-json-type-string", "varcoerce", Tv, op.OpName, copyVars(vars, map[string]any{"zzReq": "seven"}))
 		invalid("wrong-variable-json-type-object", "varcoerce", Tv, op.OpName, copyVars(vars, map[string]any{"zzReq": map[string]any{"x": 1}}))
 		invalid("wrong-variable-json-type-list", "varcoerce", Tv, op.OpName, copyVars(vars, map[string]any{"zzReq": []any{1, 2}}))
